@@ -104,7 +104,7 @@ def _identity(ctx, case, rec, d):
         from mc.runner import exc_signature
         rec.violation('plot|fitter|' + exc_signature(e), {'identity': True}, {'type': type(e).__name__, 'msg': str(e)[:300]})
         return
-    k = np.asarray(ft.av_law, float)
+    k = np.asarray(law.get_av(WAV[BANDS] * u.micron), float)          # the law as the fit sees it, through its public interface
     src_flux = val[3, min(1, n_ap - 1), BANDS] * 10 ** (1.3 * k) / 1.2 ** 2
     uap = np.unique(theta)
     cfg = ('identity', n_ap, case['long'], case['invalid'], case['memmap'])
@@ -242,7 +242,7 @@ def run_case(ctx, case, rec, d):
         from mc.runner import exc_signature
         rec.violation('plot|fitter|' + exc_signature(e), {}, {'type': type(e).__name__, 'msg': str(e)[:300]})
         return
-    k = np.asarray(ft.av_law, float)
+    k = np.asarray(law.get_av(WAV[BANDS] * u.micron), float)          # the law as the fit sees it, through its public interface
     src_flux = val[2, min(1, n_ap - 1), BANDS] * 10 ** (1.3 * k) / 1.2 ** 2
     cfg = tuple(sorted((kk, str(v)) for kk, v in case.items() if kk != '_deviations'))
     rec.state(cfg)
